@@ -81,14 +81,14 @@ func c10Scope(h H) []*ssa.Function {
 var nextTrue = "guard:(*casketfile.Dispenser).Next(p.Dispenser)=true"
 
 var c10Exceptions = map[string]e5Exception{
-	"(*casketfile.parser).directive|index:p.tokens[p.cursor]#2": {"inside `for p.Next()`: Next()==true leaves 0 <= cursor < len(tokens) (R6 checks Next's body); no cursor write lies between the loop test and this site except the rewinds that continue/break", []string{nextTrue}},
-	"(*casketfile.parser).directive|index:p.tokens[p.cursor]#3": {"as above", []string{nextTrue}},
-	"(*casketfile.parser).directive|index:p.tokens[p.cursor]#4": {"as above", []string{nextTrue}},
+	"(*casketfile.parser).directive|index:p.tokens[p.cursor]#2":   {"inside `for p.Next()`: Next()==true leaves 0 <= cursor < len(tokens) (R6 checks Next's body); no cursor write lies between the loop test and this site except the rewinds that continue/break", []string{nextTrue}},
+	"(*casketfile.parser).directive|index:p.tokens[p.cursor]#3":   {"as above", []string{nextTrue}},
+	"(*casketfile.parser).directive|index:p.tokens[p.cursor]#4":   {"as above", []string{nextTrue}},
 	"(*casketfile.parser).snippetTokens|index:p.tokens[p.cursor]": {"inside `for p.Next()`: Next()==true leaves 0 <= cursor < len(tokens) (R6)", []string{nextTrue}},
-	"(*casketfile.parser).directive|index:p.tokens[p.cursor]": {"directive() is entered only from directives(), inside `for p.Next()`, with the cursor on the directive's own token", []string{"only-caller:(*casketfile.parser).directives"}},
-	"(*casketfile.parser).doImport|slice:p.tokens[:p.cursor-1]": {"doImport is entered with the cursor on the `import` token (cursor >= 0, established by Next()==true in both callers); the successful NextArg() moved it to the argument: 1 <= cursor < len(tokens)", []string{"guard:(*casketfile.Dispenser).NextArg(p.Dispenser)=true"}},
-	"(*casketfile.parser).doImport|slice:p.tokens[p.cursor+1:]": {"as above: cursor < len(tokens), so cursor+1 <= len(tokens)", []string{"guard:(*casketfile.Dispenser).NextArg(p.Dispenser)=true"}},
-	"(*casketfile.lexer).next|panic": {"reached only for a non-EOF error of the underlying reader; Parse wraps its input, and the property quantifies over input texts, for which the reader never fails", nil},
+	"(*casketfile.parser).directive|index:p.tokens[p.cursor]":     {"directive() is entered only from directives(), inside `for p.Next()`, with the cursor on the directive's own token", []string{"only-caller:(*casketfile.parser).directives"}},
+	"(*casketfile.parser).doImport|slice:p.tokens[:p.cursor-1]":   {"doImport is entered with the cursor on the `import` token (cursor >= 0, established by Next()==true in both callers); the successful NextArg() moved it to the argument: 1 <= cursor < len(tokens)", []string{"guard:(*casketfile.Dispenser).NextArg(p.Dispenser)=true"}},
+	"(*casketfile.parser).doImport|slice:p.tokens[p.cursor+1:]":   {"as above: cursor < len(tokens), so cursor+1 <= len(tokens)", []string{"guard:(*casketfile.Dispenser).NextArg(p.Dispenser)=true"}},
+	"(*casketfile.lexer).next|panic":                              {"reached only for a non-EOF error of the underlying reader; Parse wraps its input, and the property quantifies over input texts, for which the reader never fails", nil},
 }
 
 func runC10(r *Report, p *Program) {
